@@ -4,7 +4,9 @@ A 2-of-4 file (SDMF and MDMF) on S = 4..6 real storage servers is published h ti
 on an honest grid; the share files after every publish are captured.  Then EVERY assignment
     server -> { still holds v_j (j = 1..h),  unavailable (every call fails),
                 replays v_j (j < h): holds v_h on disk but answers every read with its v_j share }
-is materialised (servers that never held a share: empty / unavailable) and
+is materialised (servers that never held a share: empty / unavailable); additionally, on S = 9..12
+servers, EVERY placement of the 4 shares on 4 of the S positions of the permuted server list x
+every version (or: server unavailable) per share ("spread"; the other servers are empty); and
   R) a fresh client (S = 4, 7, 8: it guesses k = 3 and queries 6 servers at once) or a long-lived
      client that read the file before (S = 5, 6: it knows k = 2 and queries 4 servers first) reads
      (download_best_version) under every schedule with <= d deviations;
@@ -90,30 +92,15 @@ def analyse(answers, contents_by_vid):
     return best, newer, by_vid
 
 
-def execute(case, prefix, seed):
-    fmt, S, h, phase = case["fmt"], case["S"], case["h"], case["phase"]
-    prep = prepare(fmt, S, h, seed)
-    si = prep["si"]
-    ch = grid.Chooser(prefix)
-    boot.urandom.reset(seed, b"c11-exec")
-    g = grid.Grid(S, nclients=1 if phase == "read" else 2, chooser=ch, client_kw=dict(k=K, n=N, happy=1))
-    viol, obs = [], {}
-    try:
-        dead, replay = set(), {}
-        warm_node = None
-        if case.get("warm"):
-            # a long-lived reader: it has read the file once while every server was up to date, so
-            # it knows k and N (a fresh node guesses k=3 and queries 6 servers at once)
-            for (s2, sh), blob in prep["snaps"][-1].items():
-                ms.write_share(g, si, s2, sh, blob)
-            warm_node = g.clients[0].create_node_from_uri(prep["cap_r"])
-            b0 = lib_mut.download(g, warm_node, explore=False)
-            if not b0 or b0[0][0] != "ok" or b0[0][1] != prep["contents"][-1]:
-                viol.append(("honest-grid-read-failed", "reading the up-to-date file gave %r" % (b0,)))
-                return ch.trace, viol, obs
-            g.quiesce()
-            for (s2, sh) in prep["snaps"][-1]:
-                ms.write_share(g, si, s2, sh, None)
+def _by_shnum(prep, j):
+    return {sh: blob for (sv, sh), blob in prep["snaps"][j - 1].items()}
+
+
+def layout(case, prep, g):
+    """-> ({(server, shnum): container blob on disk}, dead servers, {server: {shnum: blob served to reads}})"""
+    files, dead, replay = {}, set(), {}
+    last = len(prep["snaps"])
+    if "assign" in case:
         for sv, a in enumerate(case["assign"]):
             kind = a[0]
             if kind == "dead":
@@ -128,7 +115,44 @@ def execute(case, prefix, seed):
                 src = {}
             for (s2, sh), blob in src.items():
                 if s2 == sv:
-                    ms.write_share(g, si, sv, sh, blob)
+                    files[(sv, sh)] = blob
+    else:
+        # "spread": share number i sits on the server at position place[i] of the permuted server
+        # list of this storage index and carries version vers[i] (0 = that server is unavailable)
+        perm = [g.ids.index(s.get_serverid()) for s in g.clients[0].storage_broker.get_servers_for_psi(prep["si"])]
+        for sh, (pos, j) in enumerate(zip(case["place"], case["vers"])):
+            sv = perm[pos]
+            if j == 0:
+                dead.add(sv)
+                j = last
+            files[(sv, sh)] = _by_shnum(prep, j)[sh]
+    return files, dead, replay
+
+
+def execute(case, prefix, seed):
+    fmt, S, h, phase = case["fmt"], case["S"], case["h"], case["phase"]
+    prep = prepare(fmt, S, h, seed)
+    si = prep["si"]
+    ch = grid.Chooser(prefix)
+    boot.urandom.reset(seed, b"c11-exec")
+    g = grid.Grid(S, nclients=1 if phase == "read" else 2, chooser=ch, client_kw=dict(k=K, n=N, happy=1))
+    viol, obs = [], {}
+    try:
+        files, dead, replay = layout(case, prep, g)
+        warm_node = None
+        if case.get("warm"):
+            # a long-lived reader: it has read the file once while the shares (same placement) were
+            # all up to date, so it knows k and N (a fresh node guesses k=3 and queries 6 servers at once)
+            for (s2, sh) in files:
+                ms.write_share(g, si, s2, sh, _by_shnum(prep, len(prep["snaps"]))[sh])
+            warm_node = g.clients[0].create_node_from_uri(prep["cap_r"])
+            b0 = lib_mut.download(g, warm_node, explore=False)
+            if not b0 or b0[0][0] != "ok" or b0[0][1] != prep["contents"][-1]:
+                viol.append(("honest-grid-read-failed", "reading the up-to-date file gave %r" % (b0,)))
+                return ch.trace, viol, obs
+            g.quiesce()
+        for (s2, sh), blob in files.items():
+            ms.write_share(g, si, s2, sh, blob)
         ms.install_server_behaviour(g, dead=dead, replay=replay)
         contents_by_vid = {vid: c for vid, c in zip(prep["vids"], prep["contents"])}
         state = {"answers": {}, "failed": set(), "acked": set(), "refused": set()}
@@ -304,6 +328,16 @@ def assignments(fmt, S, h, phase, seed, warm=False):
     return out
 
 
+def spread_cases(fmt, S, h, warm, with_dead, seed):
+    prepare(fmt, S, h, seed)
+    out = []
+    vs = list(range(0 if with_dead else 1, h + 1))
+    for place in itertools.combinations(range(S), N):
+        for vers in itertools.product(vs, repeat=N):
+            out.append({"fmt": fmt, "S": S, "h": h, "phase": "read", "warm": warm, "place": list(place), "vers": list(vers)})
+    return out
+
+
 def replay(case):
     if "case" not in case:
         return prepare(case["fmt"], case["S"], case["h"], boot.SEED)["viol"]
@@ -314,11 +348,12 @@ def replay(case):
 def run(tier, seed):
     # (format, S, h, phase, d)
     if tier == "quick":
-        plan = [(f, 4, 3, "read", 1) for f in ("SDMF", "MDMF")] + [("SDMF", 5, 3, "read-warm", 1), ("MDMF", 6, 2, "read-warm", 1), ("SDMF", 7, 2, "read", 0)]
+        plan = [(f, 4, 3, "read", 1) for f in ("SDMF", "MDMF")] + [("MDMF", 6, 2, "read-warm", 0), ("SDMF", 9, 2, "spread-warm", 0)]
         plan += [(f, 4, 2, "publish", 1) for f in ("SDMF", "MDMF")] + [("SDMF", 4, 3, "publish", 0), ("MDMF", 5, 2, "publish", 0)]
     else:
-        plan = [(f, 4, 3, "read", 2) for f in ("SDMF", "MDMF")] + [(f, S, 4, "read-warm", 1) for f in ("SDMF", "MDMF") for S in (5, 6)]
-        plan += [("SDMF", 4, 6, "read", 1), ("MDMF", 5, 5, "read-warm", 0), ("SDMF", 6, 3, "read-warm", 2), ("MDMF", 7, 3, "read", 1), ("SDMF", 8, 2, "read", 1)]
+        plan = [(f, 4, 3, "read", 2) for f in ("SDMF", "MDMF")] + [("SDMF", 5, 4, "read-warm", 1), ("MDMF", 6, 4, "read-warm", 1)]
+        plan += [("SDMF", 4, 6, "read", 1), ("MDMF", 5, 5, "read-warm", 0), ("SDMF", 6, 3, "read-warm", 2)]
+        plan += [("SDMF", 10, 2, "spread-warm-dead", 0), ("MDMF", 10, 3, "spread-warm", 0), ("SDMF", 12, 2, "spread-cold", 0), ("MDMF", 9, 2, "spread-warm", 1)]
         plan += [(f, 4, 3, "publish", 1) for f in ("SDMF", "MDMF")] + [("SDMF", 4, 4, "publish", 0), ("MDMF", 5, 3, "publish", 0), ("SDMF", 6, 2, "publish", 1), ("SDMF", 4, 6, "publish", 0)]
     res = common.Result()
     desc = []
@@ -333,7 +368,10 @@ def run(tier, seed):
                 seen_prep.add((fmt, S, h))
                 for sig, msg in prep["viol"]:
                     res.violation(sig, {"fmt": fmt, "S": S, "h": h}, msg)
-            a = assignments(fmt, S, h, phase.split("-")[0], seed, warm=phase.endswith("-warm"))
+            if phase.startswith("spread"):
+                a = spread_cases(fmt, S, h, "warm" in phase, "dead" in phase, seed)
+            else:
+                a = assignments(fmt, S, h, phase.split("-")[0], seed, warm=phase.endswith("-warm"))
             cases += a
             desc.append("%s S=%d h=%d %s: %d assignments at d<=%d" % (fmt, S, h, phase, len(a), d))
         res.merge(common.pmap(chunk, cases, (seed, d, 4000), chunks=max(1, min(len(cases), common.NWORKERS * 8))))
